@@ -317,7 +317,15 @@ def compare(base: dict, alt: dict, desc, viol: list, cnt: dict, exact_obs: bool 
             if not close(bx, ax) or not np.allclose(bp, ap, rtol=1e-7, atol=1e-18):
                 return v("estimate-order-dependent", f"step {k} estimate {tid}: state differs by {float(np.max(np.abs(bx - ax))):.3e}, covariance by {float(np.max(np.abs(bp - ap))):.3e}")
         if reordered_update:
-            # from here on the two runs differ by (amplifiable) rounding in an estimate: later steps are not comparable bit for bit
+            # from here on the two runs differ by (amplifiable) rounding in an estimate: later steps are not comparable bit for bit.
+            # What was stored up to this step still is: the detected-maneuver rows (which name the observing sensors) must not depend on the order either
+            jds = sorted({r[0] for r in base["db"].get("truth", [])})
+            if exact_obs and not base["error"] and len(jds) > k and round(base.get("out_dt") or 0) == round(base.get("step_dt") or 0):
+                lim = jds[k]
+                bd = sorted(map(repr, (r for r in base["db"].get("detected_maneuvers", []) if r[0] <= lim)))
+                ad = sorted(map(repr, (r for r in alt["db"].get("detected_maneuvers", []) if r[0] <= lim)))
+                if bd != ad:
+                    return v("stored-rows-order-dependent", f"table detected_maneuvers: rows stored up to step {k} differ between schedules: {bd[:2]} vs {ad[:2]}", key="detected_maneuvers")
             cnt["comparison_stopped_after_reordered_update"] = cnt.get("comparison_stopped_after_reordered_update", 0) + 1
             return "indeterminate"
     if exact_obs and not base["error"]:
